@@ -79,10 +79,18 @@ def _dec(r, big: bool = False) -> str:
     return r.choice(["1E+3", "2.5E-7", "1.20E+2"])
 
 
+# the documented period names of both exchanges, independent of the repository's own tables (period names are case
+# sensitive: 1m is a minute, 1M a month, which the Binance tooling takes as 31 days)
+PERIOD_SECONDS = {"1s": 1, "1m": 60, "3m": 180, "5m": 300, "15m": 900, "30m": 1800, "1h": 3600, "2h": 7200, "4h": 14400,
+                  "6h": 21600, "8h": 28800, "12h": 43200, "1d": 86400, "3d": 259200, "1w": 604800, "1M": 31 * 86400,
+                  "min": 60, "hour": 3600, "day": 86400}
+
+
 def gen_csv_case(r) -> Dict[str, Any]:
     cls = r.choice(["binance", "bitstamp", "bitstamp_enum", "yahoo"])
     if cls == "binance":
-        period = r.choice(["1s", "1m", "3m", "5m", "15m", "30m", "1h", "2h", "4h", "6h", "8h", "12h", "1d"])
+        period = r.choice(["1s", "1m", "3m", "5m", "15m", "30m", "1h", "2h", "4h", "6h", "8h", "12h", "1d", "3d", "1w", "1M",
+                           "1M", "1m"])
     elif cls == "bitstamp":
         period = r.choice(["min", "hour", "day", "1m", "3m", "5m", "15m", "30m", "1h", "2h", "4h", "6h", "12h", "1d",
                            "3d"])
@@ -170,12 +178,11 @@ def _make_source(case: Dict[str, Any], path: str):
     pair = Pair("BTC", "USD")
     if case["cls"] == "binance":
         from basana.external.binance.csv import bars as bcsv
-        from basana.external.binance.tools.download_bars import period_to_step
         return bcsv.BarSource(pair, path, case["period"], sort=case["sort"], tzinfo=tzinfo), \
-            period_to_step[case["period"]], tzinfo
+            PERIOD_SECONDS[case["period"]], tzinfo
     if case["cls"] in ("bitstamp", "bitstamp_enum"):
         from basana.external.bitstamp.csv import bars as scsv
-        from basana.external.bitstamp.tools.download_bars import period_to_step
+        period_to_step = PERIOD_SECONDS
         if case["cls"] == "bitstamp_enum":
             period = getattr(scsv.BarPeriod, case["period"])
             secs = {"MINUTE": 60, "HOUR": 3600, "DAY": 86400}[case["period"]]
